@@ -38,6 +38,7 @@ pub enum BinaryRequest {
     QuitQuietly(binary::QuitRequest),
     ItemTooLarge(binary::SetRequest),
     Stats(binary::StatsRequest),
+    NotSupported(binary::NotSupportedRequest),
 }
 
 impl BinaryRequest {
@@ -70,7 +71,8 @@ impl BinaryRequest {
 
             BinaryRequest::Noop(request)
             | BinaryRequest::Version(request)
-            | BinaryRequest::Stats(request) => &request.header,
+            | BinaryRequest::Stats(request)
+            | BinaryRequest::NotSupported(request) => &request.header,
 
             BinaryRequest::Flush(request) | BinaryRequest::FlushQuietly(request) => &request.header,
 
@@ -289,7 +291,7 @@ impl MemcacheBinaryCodec {
             | Some(binary::Command::SaslListMechs)
             | Some(binary::Command::SaslStep) => {
                 error!("Command not supported, opcode: {:?}", self.header.opcode);
-                Ok(None)
+                self.parse_not_supported_request(src)
             }
 
             Some(binary::Command::OpCodeMax) => {
@@ -405,6 +407,26 @@ impl MemcacheBinaryCodec {
                 header: self.header,
             })))
         }
+    }
+
+    // Known protocol command which is not implemented: request body is
+    // skipped so client can be informed with an error response
+    fn parse_not_supported_request(
+        &self,
+        src: &mut BytesMut,
+    ) -> Result<Option<BinaryRequest>, io::Error> {
+        if !self.request_valid(src, false) {
+            return Err(Error::new(
+                ErrorKind::InvalidData,
+                "Incorrect not supported request",
+            ));
+        }
+        src.advance(self.header.body_length as usize);
+        Ok(Some(BinaryRequest::NotSupported(
+            binary::NotSupportedRequest {
+                header: self.header,
+            },
+        )))
     }
 
     fn parse_flush_request(&self, src: &mut BytesMut) -> Result<Option<BinaryRequest>, io::Error> {
